@@ -86,6 +86,31 @@ def structured(rng):
     base, offs = pdfgen.write_classic(pdfgen.page_doc(1))
     x = base.rfind(b"xref")
     docs.append(base.replace(b"trailer\n<<", b"trailer\n<< /Prev %d" % x, 1))
+    # counts that are plausible one by one but whose SUM or PRODUCT wraps a 32-bit integer (k extra entries/bytes make the
+    # wrapped total agree with the real data length)
+    for idx, nent in [([0, 6, 0, 2147483647, 0, 2147483647, 0, 2], 6), ([0, 3, 5, 2147483647, 9, 2147483646, 0, 3], 4),
+                      ([0, 4, 0, 4294967295, 0, 1], 4), ([2147483647, 2, 0, 4], 6)]:
+        d = pdfgen.page_doc(1)
+        data0, offs = pdfgen.write_classic(d)
+        body = data0[:data0.rfind(b"xref")]
+        n = max(d.objects) + 1
+        ents = b"".join(bytes([1]) + (offs.get(i, 0)).to_bytes(2, "big") + b"\0" for i in range(1, nent + 1))
+        xoff = len(body)
+        xs = (b"%d 0 obj\n<< /Type /XRef /Size %d /W [1 2 1] /Index [%s] /Root 1 0 R /Length %d >>\nstream\n" % (n, n + 1, " ".join(map(str, idx)).encode(), len(ents))
+              + ents + b"\nendstream\nendobj\nstartxref\n%d\n%%%%EOF\n" % xoff)
+        docs.append(body + xs)
+    for w, h, comps, cs in [(65500, 21858, 3, "DeviceRGB"), (65536, 65536, 1, "DeviceGray"), (46341, 46341, 2, None), (65500, 65500, 4, "DeviceCMYK")]:
+        total = w * h * comps
+        k = total % (1 << 32)
+        if 0 < k < 400000:
+            d = pdfgen.page_doc(1)
+            runs = b"".join(bytes([129]) + b"\0" for _ in range(k // 128)) + (bytes([257 - (k % 128)]) + b"\0" if k % 128 > 1 else b"") + bytes([128])
+            img = {b"Type": N("XObject"), b"Subtype": N("Image"), b"Width": w, b"Height": h, b"BitsPerComponent": 8, b"Filter": N("RunLengthDecode")}
+            if cs:
+                img[b"ColorSpace"] = N(cs)
+            ir = d.add(Stream(img, runs))
+            d.objects[5][b"Resources"][b"XObject"] = {b"Im1": ir}
+            docs.append(pdfgen.write_classic(d)[0])
     # object stream containing itself / extends loop
     d = pdfgen.page_doc(1)
     d.objects[1][b"Y"] = d.add(Stream({b"Type": N("ObjStm"), b"N": 3, b"First": 10, b"Extends": Ref(max(d.objects) + 1)}, b"7 0 8 1 9 2 <<>> 1 2"))
@@ -132,17 +157,20 @@ def run(chk):
         if os.path.getsize(p) <= 200000:
             seeds.append(open(p, "rb").read())
     inputs = list(structured(rng))
+    structured.count = len(inputs)
     n_mut = 260 if quick else 6000
     for i in range(n_mut):
         inputs.append(mutate(rng, rng.choice(seeds)))
     modes = [["--check"], [], ["--qdf", "--object-streams=disable"], ["--linearize"], ["--object-streams=generate", "--recompress-flate"],
              ["--json-output", "--json-stream-data=inline"], ["--show-pages", "--with-images"], ["--list-attachments"], ["--check", "--suppress-recovery"],
-             ["--decode-level=all", "--stream-data=uncompress"], ["--remove-unreferenced-resources=yes", "--pages", ".", "1-z", "--"]]
+             ["--decode-level=all", "--stream-data=uncompress"], ["--remove-unreferenced-resources=yes", "--pages", ".", "1-z", "--"],
+             ["--optimize-images"], ["--externalize-inline-images", "--optimize-images", "--oi-min-area=0"], ["--flatten-annotations=all", "--generate-appearances"]]
     jobs = []
     for i, data in enumerate(inputs):
         p = os.path.join(wd, "in%d.pdf" % i)
         open(p, "wb").write(data)
-        for m in ([modes[0]] + rng.sample(modes[1:], 2 if quick else 4)):
+        nstruct = getattr(structured, "count", 0)
+        for m in (modes if i < nstruct else [modes[0]] + rng.sample(modes[1:], 2 if quick else 4)):
             jobs.append((p, m, len(data)))
 
     def runjob(j):
